@@ -12,6 +12,7 @@ fn run_line(line: &str) -> String {
     let args: Vec<&str> = it.collect();
     match kind {
         "B" => builder_cases::run_case(&args),
+        "H" => builder_cases::run_history(&args),
         _ => format!("?unknown-case-kind {kind}"),
     }
 }
